@@ -30,7 +30,7 @@ func c14List(k *h.Case, g *spec.Gen, movement bool, maxLen, depth int, allowBig 
 					c.Elems = c14List(k, g, movement, 4, depth+1, false)
 				} else {
 					for len(c.Elems) != 1 || c.Elems[0].Name == "," {
-						c.Elems = c14List(k, g, movement, 1, 2, false)
+						c.Elems = c14List(k, g, movement, 1, depth+1, false) // (may itself be a poryswitch)
 					}
 					c.Elems[0].Comma = false
 				}
